@@ -264,7 +264,8 @@ inline Value projNeighMoving(NeighMoving* n)
 }
 inline Value queryNeighMoving(NeighMoving* n)
 {
-  Value q = neighSelect(n, n->getNDim());
+  // (a selection with an absurd number of sectors allocates as much for an object built through the API)
+  Value q = (n->getNSect() > 64) ? Value::object() : neighSelect(n, n->getNDim());
   const BiTargetCheckDistance* b = n->getBiPtDist();
   VectorDouble dd(b->getNDim(), 1.);
   q["normdist"] = T(b->getNormalizedDistance(dd));
